@@ -76,7 +76,7 @@ Section Handlers3.
       if b then clear_checkpoint else switch_to_value
     else if c =? c_pct then
       let nx := peek_next s in
-      if nx =? c_star then start_token ;; lex_macro_comment F
+      if nx =? c_star then clear_checkpoint ;; start_token ;; lex_macro_comment F
       else if is_valid_unicode_sas_name_start nx then
         clear_checkpoint ;;
         let mode_stack_len := s_nmodes s in
